@@ -316,6 +316,10 @@ func genC19(g *Rng, tier string, emit func(Op)) {
 		emit(Op{"ref": true, "op": "legendre", "class": "rand-jacobi", "a": hx(a), "p": hx(nodd)})
 		if p.Cmp(q) != 0 {
 			emit(Op{"ref": true, "op": "crt", "class": "rand", "a": hx(g.below(p)), "pa": hx(p), "b": hx(g.below(q)), "pb": hx(q)})
+			// residues that are not reduced (or negative): the result is still THE number below pa*pb
+			emit(Op{"ref": true, "op": "crt", "class": "unreduced", "fkey": "C19/crt-unreduced", "a": hx(new(big.Int).Add(g.below(p), new(big.Int).Mul(p, bi(int64(1+g.intn(5)))))), "pa": hx(p), "b": hx(g.below(q)), "pb": hx(q)})
+			emit(Op{"ref": true, "op": "crt", "class": "unreduced", "fkey": "C19/crt-unreduced", "a": hx(g.below(p)), "pa": hx(p), "b": hx(new(big.Int).Add(g.below(q), new(big.Int).Mul(q, bi(int64(1+g.intn(5)))))), "pb": hx(q)})
+			emit(Op{"ref": true, "op": "crt", "class": "negative", "fkey": "C19/crt-unreduced", "a": hx(new(big.Int).Neg(g.below(p))), "pa": hx(p), "b": hx(g.below(q)), "pb": hx(q)})
 		}
 		if i%4 == 0 {
 			// square and non-square inputs; p = 1 mod 8 exercised by volume and by construction
